@@ -376,15 +376,17 @@ theorem extract_md (io : NumIO α) (e : Export α μ) (h : TableOk io e) (hv : T
 def reimported (e : Export α μ) (omd : Option (List (Text × ν))) : Imported α ν :=
   { obs := e.obs, samp := e.samp, rows := e.rows, omd := omd }
 
+def attachMd (proc : Text → ν) : Option (List Text) → Option Text → Option (List (Text × ν))
+  | some ms, some nm => some (ms.map (fun s => (nm, proc s)))
+  | _, _ => none
+
 /-- from the extracted pieces to the table: entries inside the announced shape, IDs distinct, and
 the matrix built from the entries is the grid -/
 theorem fromTsv_of_extract (io : NumIO α) (proc : Text → ν) (lines : List Text) (e : Export α μ)
     (h : TableOk io e) (md : Option (List Text)) (mdName : Option Text)
     (hx : extractData io lines =
       .ok { samp := e.samp, obs := e.obs, triples := allTriples 0 e.rows, md := md, mdName := mdName }) :
-    fromTsv io proc lines = .ok (reimported e (match md, mdName with
-        | some ms, some nm => some (ms.map (fun s => (nm, proc s)))
-        | _, _ => none)) := by
+    fromTsv io proc lines = .ok (reimported e (attachMd proc md mdName)) := by
   have hany : (allTriples 0 e.rows).any
       (fun t => decide (e.obs.length ≤ t.1) || decide (e.samp.length ≤ t.2.1)) = false := by
     rw [List.any_eq_false]
@@ -396,7 +398,193 @@ theorem fromTsv_of_extract (io : NumIO α) (proc : Text → ν) (lines : List Te
   simp only [fromTsv, hx, hany, Bool.false_eq_true, if_false, h.obs_nodup, h.samp_nodup, decide_true,
     Bool.and_self, Bool.not_true, Bool.and_false,
     gridOf_allTriples e.obs.length e.samp.length e.rows h.rows_len h.row_len, reimported]
+  cases md <;> cases mdName <;> rfl
 
 end main
+
+/-! ### from the decidable guard to the hypotheses -/
+
+theorem noLead_of_B (s : Text) (h : noLeadB s = true) : NoLead s := by
+  intro c t e
+  subst e
+  simpa [noLeadB] using h
+
+theorem noTrail_of_B (s : Text) (h : noTrailB s = true) : NoTrail s := by
+  intro c hc
+  simpa [noTrailB, hc] using h
+
+theorem fieldOk_of_B (s : Text) (h : fieldOkB s = true) : FieldOk s := by
+  simp only [fieldOkB, Bool.and_eq_true, Bool.not_eq_true', List.isEmpty_eq_false_iff,
+    List.contains_eq_mem, decide_eq_false_iff_not] at h
+  exact ⟨h.1.1.1, h.1.1.2, noLead_of_B s h.1.2, noTrail_of_B s h.2⟩
+
+theorem idOk_of_B (s : Text) (h : idOkB s = true) : IdOk s := by
+  simp only [idOkB, Bool.and_eq_true, Bool.not_eq_true'] at h
+  exact ⟨fieldOk_of_B s h.1, h.2⟩
+
+theorem numOk_of_B [DecidableEq α] (io : NumIO α) (v : α) (h : numOkB io v = true) : NumOk io v := by
+  simp only [numOkB, Bool.and_eq_true, decide_eq_true_eq, Bool.not_eq_true', List.contains_eq_mem,
+    decide_eq_false_iff_not] at h
+  exact ⟨h.1.1.1, h.1.1.2, noLead_of_B _ h.1.2, noTrail_of_B _ h.2⟩
+
+theorem tableOk_of_B [DecidableEq α] (io : NumIO α) (e : Export α μ) (h : tableOkB io e = true) :
+    TableOk io e := by
+  simp only [tableOkB, Bool.and_eq_true, Bool.not_eq_true', List.isEmpty_eq_false_iff, List.all_eq_true,
+    decide_eq_true_eq, beq_iff_eq, List.contains_eq_mem, decide_eq_false_iff_not] at h
+  obtain ⟨⟨⟨⟨⟨⟨⟨⟨⟨⟨⟨h1, h2⟩, h3⟩, h4⟩, h5⟩, h6⟩, h7⟩, h8⟩, h9⟩, h10⟩, h11⟩, h12⟩ := h
+  exact { obs_ne := h1, samp_ne := h2, obs_ok := fun o ho => idOk_of_B o (h3 o ho),
+          samp_ok := fun s hs => fieldOk_of_B s (h4 s hs), obs_nodup := h5, samp_nodup := h6,
+          rows_len := h7, row_len := h8, num_ok := fun r hr v hv => numOk_of_B io v (h9 r hr v hv),
+          col_ne := h10, col_noTab := h11, col_noLead := noLead_of_B _ h12 }
+
+/-! ### the round trip -/
+
+section roundtrip
+variable [Zero α] [DecidableEq α] [DecidableEq μ]
+
+/-- what re-importing must give: IDs and grid of `e`, and the exported category under the header value -/
+def expected (e : Export α μ) : Imported α μ :=
+  reimported e (if exported e then e.md.map (·.map (fun x => (e.headerValue.getD [], x))) else none)
+
+/-- Core statement: under the guard, the importer applied to the exported lines — each possibly
+followed by its own blank line end — returns the IDs of both axes in order, the grid, and the category. -/
+theorem import_export (io : NumIO α) (fmtMd : μ → Text) (proc : Text → μ) (e : Export α μ)
+    (hg : guardB io fmtMd proc e = true) :
+    ∃ lines, toTsv io fmtMd e = .ok lines ∧
+      ∀ lines', EolRel lines lines' → fromTsv io proc lines' = .ok (expected e) := by
+  simp only [guardB, Bool.and_eq_true] at hg
+  have h := tableOk_of_B io e hg.1
+  have hmd := hg.2
+  have hoe : e.obs.isEmpty = false := by simpa using h.obs_ne
+  have hse : e.samp.isEmpty = false := by simpa using h.samp_ne
+  unfold mdOkB at hmd
+  split at hmd
+  · -- no category requested
+    next hk hv =>
+    refine ⟨line0 :: headerLine e :: dataLines io e.obs e.rows none, ?_, ?_⟩
+    · simp [toTsv, hoe, hse, hk, hv, mdTexts, truthy]
+    · intro lines' hr
+      rw [fromTsv_eol io proc hr]
+      have hx := extract_plain io e h (by rw [hv]; rfl)
+      rw [fromTsv_of_extract io proc _ e h none none hx]
+      simp [expected, exported, hk, truthy, attachMd]
+  · -- a category is exported
+    next hk hv hke hve =>
+    simp only [Bool.and_eq_true, Bool.not_eq_true', List.isEmpty_eq_false_iff] at hmd
+    obtain ⟨⟨hkne, hvok⟩, hrest⟩ := hmd
+    have hvok := fieldOk_of_B hv hvok
+    cases hm : e.md with
+    | none => rw [hm] at hrest; exact absurd hrest (by simp)
+    | some ms =>
+      rw [hm] at hrest
+      simp only [Bool.and_eq_true, beq_iff_eq, List.all_eq_true, Bool.not_eq_true', List.contains_eq_mem,
+        decide_eq_false_iff_not, List.any_eq_true, Option.isNone_iff_eq_none, decide_eq_true_eq] at hrest
+      obtain ⟨⟨⟨hml, hmt⟩, hex⟩, hinv⟩ := hrest
+      have htk : truthy e.headerKey = true := by
+        rw [hke]; cases hk with
+        | nil => exact absurd rfl hkne
+        | cons c t => rfl
+      have htv : truthy e.headerValue = true := by
+        rw [hve]; cases hv with
+        | nil => exact absurd rfl hvok.ne
+        | cons c t => rfl
+      have htk' := htk
+      have htv' := htv
+      rw [hke] at htk'
+      rw [hve] at htv'
+      refine ⟨line0 :: headerLine e :: dataLines io e.obs e.rows (some (ms.map fmtMd)), ?_, ?_⟩
+      · simp [toTsv, hoe, hse, hke, hve, mdTexts, htk', hm]
+      · intro lines' hr
+        rw [fromTsv_eol io proc hr]
+        have hx := extract_md io e h hv (ms.map fmtMd) hve hvok (by simpa using hml)
+          (by intro m hm'; obtain ⟨x, hx, rfl⟩ := List.mem_map.mp hm'; exact hmt x hx)
+          (by obtain ⟨x, hx, hxn⟩ := hex; exact ⟨fmtMd x, List.mem_map_of_mem hx, hxn⟩)
+        rw [fromTsv_of_extract io proc _ e h _ _ hx]
+        simp only [expected, exported, htk', htv', hm, attachMd, hve, hke, Bool.and_self, Option.isSome_some,
+          if_true, Option.map_some, Option.getD_some, List.map_map]
+        congr 2
+        apply congrArg some
+        apply List.map_congr_left
+        intro x hx
+        simp [hinv x hx]
+  · exact absurd hmd (by simp)
+
+/-- the same for the model's own composition with one line end for every line -/
+theorem roundTrip_eq (io : NumIO α) (fmtMd : μ → Text) (proc : Text → μ) (eol : Text) (e : Export α μ)
+    (hg : guardB io fmtMd proc e = true) (he : eolOkB eol = true) :
+    roundTrip io fmtMd proc eol e = .ok (expected e) := by
+  obtain ⟨lines, h1, h2⟩ := import_export io fmtMd proc e hg
+  have heol : EolOk eol := by
+    simp only [eolOkB, Bool.and_eq_true, List.all_eq_true, Bool.not_eq_true', List.contains_eq_mem,
+      decide_eq_false_iff_not] at he
+    exact ⟨he.1, he.2⟩
+  simp only [roundTrip, h1]
+  exact h2 _ (EolRel.map_append eol heol lines)
+
+omit [Zero α] in
+theorem holds_expected (e : Export α μ) (hr : e.rows.length = e.obs.length)
+    (hc : ∀ r ∈ e.rows, r.length = e.samp.length) : holds e (.ok (expected e)) = true := by
+  have h1 : (e.rows.length == e.obs.length) = true := by simpa using hr
+  have h2 : e.rows.all (fun r => r.length == e.samp.length) = true := by
+    simpa [List.all_eq_true] using hc
+  by_cases hx : exported e = true <;>
+    simp [holds, holdsV, expected, reimported, Codec.allV, Codec.chk, Codec.Verdict.and, h1, h2, hx]
+
+/-- **model_holds**: for every table, formatter, processing function, number printer/parser and
+line end that meet the guard, the declarative predicate is true of what the model re-imports. -/
+theorem model_holds (io : NumIO α) (fmtMd : μ → Text) (proc : Text → μ) (eol : Text) (e : Export α μ)
+    (hg : guardB io fmtMd proc e = true) (he : eolOkB eol = true) :
+    holds e (roundTrip io fmtMd proc eol e) = true := by
+  rw [roundTrip_eq io fmtMd proc eol e hg he]
+  have h := tableOk_of_B io e (by simp only [guardB, Bool.and_eq_true] at hg; exact hg.1)
+  exact holds_expected e h.rows_len h.row_len
+
+/-- "yields the same observation and sample IDs in order and exactly the same matrix values" —
+every shape with at least one observation and one sample, hence also a single sample or a single
+observation; no category requested, or any category meeting the guard. -/
+theorem tsv_roundtrip (io : NumIO α) (fmtMd : μ → Text) (proc : Text → μ) (eol : Text) (e : Export α μ)
+    (hg : guardB io fmtMd proc e = true) (he : eolOkB eol = true) :
+    ∃ t, roundTrip io fmtMd proc eol e = .ok t ∧ t.obs = e.obs ∧ t.samp = e.samp ∧ t.rows = e.rows :=
+  ⟨expected e, roundTrip_eq io fmtMd proc eol e hg he, rfl, rfl, rfl⟩
+
+/-- "that category is preserved as well": the re-imported table carries, for every observation in
+order, the header value as category name and the original value. -/
+theorem tsv_md_roundtrip (io : NumIO α) (fmtMd : μ → Text) (proc : Text → μ) (eol : Text) (e : Export α μ)
+    (hg : guardB io fmtMd proc e = true) (he : eolOkB eol = true)
+    (hk hv : Text) (ms : List μ) (h1 : e.headerKey = some hk) (h2 : e.headerValue = some hv)
+    (h3 : e.md = some ms) :
+    ∃ t, roundTrip io fmtMd proc eol e = .ok t ∧ t.omd = some (ms.map (fun x => (hv, x))) := by
+  refine ⟨expected e, roundTrip_eq io fmtMd proc eol e hg he, ?_⟩
+  have hg' := hg
+  simp only [guardB, Bool.and_eq_true, mdOkB, h1, h2, h3, Bool.not_eq_true', List.isEmpty_eq_false_iff] at hg'
+  have hkne : hk ≠ [] := hg'.2.1.1
+  have hvne : hv ≠ [] := (fieldOk_of_B hv hg'.2.1.2).ne
+  have htk : truthy (some hk) = true := by
+    cases hk with
+    | nil => exact absurd rfl hkne
+    | cons c t => rfl
+  have htv : truthy (some hv) = true := by
+    cases hv with
+    | nil => exact absurd rfl hvne
+    | cons c t => rfl
+  simp [expected, reimported, exported, h1, h2, h3, htk, htv]
+
+/-- text supplied as a file handle: every line but possibly the last ends with "\n" (or any other
+blank line end); the result is the same as for the list of lines. -/
+theorem tsv_roundtrip_any_line_ends (io : NumIO α) (fmtMd : μ → Text) (proc : Text → μ) (e : Export α μ)
+    (hg : guardB io fmtMd proc e = true) :
+    ∃ lines, toTsv io fmtMd e = .ok lines ∧
+      ∀ lines', EolRel lines lines' → holds e (fromTsv io proc lines') = true := by
+  obtain ⟨lines, h1, h2⟩ := import_export io fmtMd proc e hg
+  refine ⟨lines, h1, fun lines' hr => ?_⟩
+  rw [h2 lines' hr]
+  have h := tableOk_of_B io e (by simp only [guardB, Bool.and_eq_true] at hg; exact hg.1)
+  exact holds_expected e h.rows_len h.row_len
+
+end roundtrip
+
+/-- the text returned by `to_tsv` is the lines joined with '\n'; splitting it at '\n' gives the lines back -/
+theorem lines_of_text (lines : List Text) (h : ∀ l ∈ lines, '\n' ∉ l) (hne : lines ≠ []) :
+    split '\n' (toText lines) = lines := split_join '\n' lines h hne
 
 end Biom.C03
